@@ -40,8 +40,12 @@ def tempo_exc_atomic(inp):
     import oqupy
     bad = []
     for dkmax in (None, 3):
-        ref = _tempo(Flaky(-1), dkmax).compute(0.6, progress_type='silent')
-        for fail_at in (3, 4, 7):
+        counter = Flaky(-1)
+        counter.armed = True
+        ref = _tempo(counter, dkmax).compute(0.6, progress_type='silent')
+        per_step = max(1, counter.count // 6)        # evaluations of the Hamiltonian per time step (quadrature points)
+        # failures in the first, second, fourth and last step of the call
+        for fail_at in (3, per_step + 2, 3 * per_step + 2, 5 * per_step + 2):
             fl = Flaky(fail_at)
             t = _tempo(fl, dkmax)
             fl.armed = True
